@@ -1,5 +1,6 @@
 """C14 - evaluating a rule never crashes; what cannot be evaluated denies.
 DESIGN 4/C14."""
+import copy
 import itertools
 import traceback
 
@@ -92,6 +93,7 @@ def plan(tier, seed):
         jobs.append({'space': 'B', 'path': i, 'tier': tier, 'weight': 300})
     jobs.append({'space': 'W', 'tier': tier, 'weight': 50})
     jobs.append({'space': 'Q', 'tier': tier, 'weight': 50})
+    jobs.append({'space': 'H', 'tier': tier, 'weight': 50})
     nmax = 9 if tier == 'quick' else 11
     for n in range(1, nmax + 1):
         k = 1 if n < 8 else 4 if n < 10 else 16
@@ -269,12 +271,77 @@ def run_Q(acc, enf):
     acc.sample('Q', {'inner': Q_INNER})
 
 
+def run_H(acc):
+    """Histories on ONE enforcer: a leaf that cannot be evaluated (its path
+    runs into a scalar, its target key is missing, its left side is hostile)
+    is decided right AFTER a call in which the very same leaf - directly or
+    behind a `rule:` reference - evaluated to true, and that earlier call ended
+    by returning, by returning False, or by raising.  The unevaluable leaf
+    still denies and nothing escapes but the documented exceptions."""
+    from oslo_policy import policy as P
+    leaves = ['tok.project.id:%(pid)s', 'tok.id:p1', 'grp.name:%(pid)s',
+              "'p1':%(pid)s"]
+    good = {'creds': {'tok': {'project': {'id': 'p1'}, 'id': 'p1'},
+                      'grp': [{'name': 'p1'}], 'roles': []},
+            'target': {'pid': 'p1'}}
+    bad = [  # (creds, target): the leaf cannot hold
+        ({'tok': 'p1', 'grp': 'p1', 'roles': ['admin']}, {'pid': 'p1'}),
+        ({'tok': None, 'grp': None, 'roles': ['admin']}, {'pid': 'p1'}),
+        ({'tok': ['p1'], 'grp': [['p1']], 'roles': ['admin']}, {'pid': 'p1'}),
+        ({'tok': {'project': 'p1', 'id': ['x']}, 'grp': 7,
+          'roles': ['admin']}, {'pid': 'p1'}),
+        ({'tok': {'project': {'id': 'p1'}, 'id': 'p2'},
+          'grp': [{'name': 'p2'}], 'roles': ['admin']}, {}),
+    ]
+    for leaf in leaves:
+        rules = {'member': leaf, 'op': 'rule:member and role:admin',
+                 'direct': '(%s) and role:admin' % leaf,
+                 'opn': 'not (rule:member and role:admin)'}
+        for name, first in itertools.product(('op', 'direct', 'opn'),
+                                             ('return', 'raise', 'raise-exc')):
+            for bcreds, btarget in bad:
+                enf = world.bare_enforcer()
+                world.set_rules(enf, rules)
+                acc.case('H', True)
+                # call 1: the leaf holds, the admin role is missing -> denied
+                # (for 'opn': allowed)
+                try:
+                    acc.ev()
+                    enf.enforce(name, dict(good['target']),
+                                copy.deepcopy(good['creds']),
+                                do_raise=first != 'return',
+                                exc=KeyError if first == 'raise-exc' else None)
+                except (P.PolicyNotAuthorized, KeyError):
+                    pass
+                # call 2: the leaf cannot hold; the caller is admin
+                if leaf.startswith("'p1'") and btarget:
+                    continue          # a literal left side needs the target
+                acc.ev()
+                got = world.decide(enf, name, dict(btarget),
+                                   copy.deepcopy(bcreds))
+                want = ('ok', name == 'opn')
+                if got != want:
+                    acc.violation(
+                        'H|after-%s|%s|%s' % (first, name, 'allows' if got ==
+                                              ('ok', True) else got[1]),
+                        'after a call that ended by %s, %s (member = %r) '
+                        'decides %r for creds %r target %r, expected %r' %
+                        (first, name, leaf, got, bcreds, btarget, want),
+                        {'rules': rules, 'first': first, 'name': name,
+                         'creds': bcreds, 'target': btarget}, want, got, 'H')
+                acc.outcome('H-%s' % (want[1],))
+    acc.sample('H', {'leaves': leaves})
+
+
 def run(job, seed):
     acc = core.Acc()
     enf = world.bare_enforcer()
     b = BOUNDS[job['tier']]
     if job['space'] == 'Q':
         run_Q(acc, enf)
+        return acc.result()
+    if job['space'] == 'H':
+        run_H(acc)
         return acc.result()
     if job['space'] == 'E':
         run_E(acc, enf, job)
